@@ -307,7 +307,16 @@ def field_stores(m, loaders, fld):
                         and t.attr == fld):
                     continue
                 v = n.value
-                reset = isinstance(v, ast.Constant)
+                # a constant is a reset only when it is the value the
+                # constructor starts the field with (flag = True set by an
+                # import is a re-binding, flag = False is the reset)
+                reset = isinstance(v, ast.Constant) and any(
+                    isinstance(st, ast.Assign) and isinstance(
+                        st.value, ast.Constant)
+                    and st.value.value == v.value
+                    and m.owner(meth).name == "__init__"
+                    for cq2 in loaders
+                    for st, meth in m.classes[cq2].fields.get(fld, []))
                 if isinstance(v, ast.Attribute) and isinstance(
                         v.value, ast.Name) and v.value.id == selfn \
                         and v.attr != fld:
